@@ -411,3 +411,93 @@ def expand_local(fn, e):
         return expand(fn, e, stores_in(fn), depth=2)
     except Exception:       # noqa: BLE001
         return e
+
+
+def generator_glue(ctx, rule):
+    """Three small pieces of glue around the generator that every guess passes through (all found silent by the mutation sweep):
+
+      * PcfgQueue.next gives up exactly when the heap is EMPTY (`len(q) == 0` / `not q`): `== 1` loses the last pre-terminal;
+      * PcfgGrammar.create_guesses sends honeyword requests to _honeyword_recursive_guess and everything else to _recursive_guesses,
+        starting from the empty guess and the whole parse tree, with the limit it was given;
+      * PcfgGrammar.random_walk starts every position at index 0 (`(replacement, 0)`)."""
+    from ..core import path_conditions
+    ok = True
+    # -- next
+    q = 'lib_guesser/priority_queue.py::PcfgQueue.next'
+    fn = ctx.fn(q)
+    mod = ctx.repo.modules['lib_guesser/priority_queue.py']
+    ctx.stats['functions'].add(q)
+    pops = [c for c in calls_in(fn) if call_name(c) == 'heapq.heappop']
+    empties = []
+    for st in walk_local(fn):
+        if isinstance(st, ast.If) and st.body and isinstance(st.body[-1], ast.Return) and (st.body[-1].value is None or const(st.body[-1].value) is None):
+            empties.append(st)
+    good_tests = {'len(self.p_queue) == 0', 'not self.p_queue', '0 == len(self.p_queue)', 'len(self.p_queue) < 1', 'len(self.p_queue) <= 0',
+                  'not len(self.p_queue)'}
+    if len(pops) != 1 or len(empties) != 1:
+        ctx.unk(rule, q, 'expected one heappop and one "nothing left" exit in next() (%d / %d)' % (len(pops), len(empties)))
+        ok = False
+    elif U(empties[0].test) not in good_tests:
+        t = U(empties[0].test)
+        ok = False
+        if 'p_queue' in t and isinstance(empties[0].test, (ast.Compare, ast.UnaryOp)):
+            ctx.bad(rule, q, 'next() gives up when ' + t, 'the run ends when the heap is empty: any other test ends it with pre-terminals still '
+                    'queued (or never)', None, empties[0], firm=True)
+        else:
+            ctx.unk(rule, q, 'the "nothing left" test of next() is not of a form this rule knows: ' + t)
+    # -- create_guesses
+    q2 = 'lib_guesser/pcfg_grammar.py::PcfgGrammar.create_guesses'
+    fn2 = ctx.fn(q2)
+    mod2 = ctx.repo.modules['lib_guesser/pcfg_grammar.py']
+    ctx.stats['functions'].add(q2)
+    ps = params(fn2)
+    hw = [p for p in ps if 'honey' in p]
+    calls = {call_name(c): c for c in calls_in(fn2) if call_name(c) in ('self._recursive_guesses', 'self._honeyword_recursive_guess')}
+    if len(hw) != 1 or len(calls) != 2:
+        ctx.unk(rule, q2, 'create_guesses is not the two-way dispatch this rule knows (%s, %s)' % (hw, sorted(calls)))
+        ok = False
+    else:
+        from . import c08 as _c08
+        for name, want in (('self._recursive_guesses', False), ('self._honeyword_recursive_guess', True)):
+            c = calls[name]
+            conds = path_conditions(mod2, _c08._stmt_of(mod2, c))
+            val = None
+            for t, pol in conds:
+                if U(t) == hw[0]:
+                    val = pol
+                elif U(t) == 'not %s' % hw[0]:
+                    val = not pol
+            if val is None:
+                ctx.unk(rule, q2, '%s is called under %s' % (name, [(U(t), p) for t, p in conds]))
+                ok = False
+            elif val != want:
+                ok = False
+                ctx.bad(rule, q2, '%s is called when %s is %s' % (name, hw[0], val), 'honeyword requests draw one random value per group, '
+                        'everything else expands the full product', None, c, firm=True)
+            args = [U(a) for a in c.args] + ['%s=%s' % (k.arg, U(k.value)) for k in c.keywords]
+            if len(c.args) >= 2 and (const(c.args[0]) != '' or U(c.args[1]) != ps[1]):
+                ok = False
+                ctx.bad(rule, q2, '%s(%s)' % (name, ', '.join(args)), 'generation starts from the empty guess and the whole parse tree', None, c, firm=True)
+            lim = [U(a) for a in c.args[2:3]] + [U(k.value) for k in c.keywords if k.arg == 'limit']
+            if lim and lim[0] != 'limit':
+                ok = False
+                ctx.bad(rule, q2, '%s gets limit %s' % (name, lim[0]), 'the limit of the caller is handed on unchanged', None, c, firm=True)
+    # -- random_walk start index
+    q3 = 'lib_guesser/pcfg_grammar.py::PcfgGrammar.random_walk'
+    fn3 = ctx.fn(q3)
+    ctx.stats['functions'].add(q3)
+    seeds = []
+    for x in walk_local(fn3):
+        if isinstance(x, ast.Tuple) and len(x.elts) == 2 and isinstance(x.elts[1], ast.Constant) and isinstance(x.elts[1].value, int) \
+                and not isinstance(x.elts[1].value, bool) and isinstance(x.elts[0], ast.Name) and isinstance(x.ctx, ast.Load):
+            seeds.append(x)
+    if not seeds:
+        ctx.unk(rule, q3, 'no (replacement, <index>) start element found in random_walk')
+        ok = False
+    for x in seeds:
+        if x.elts[1].value != 0:
+            ok = False
+            ctx.bad(rule, q3, 'walk positions start at %s' % U(x), 'a position that the cumulative scan does not move stays at its start index: '
+                    'it must be 0, the first (most probable) group', None, x, firm=True)
+    if ok:
+        ctx.ok(rule, 'lib_guesser', 'next() ends on an empty heap; create_guesses dispatches on the honeyword flag; walks start at index 0')
